@@ -1136,7 +1136,7 @@ class SimplicialComplex:
 
             # the boundary k-chains correspond to the zero columns
             # in the reduced matrix (the kernelDim rightmost entries)
-            chains = cls[-kernelDim:]
+            chains = cls[cb - kernelDim:]
             boundaries[k] = chains
 
         return boundaries
